@@ -202,7 +202,10 @@ class Pbox(NominalValueMixin, ABC):
         # carry an integer dtype into the arithmetic (int64 overflow in P * 10**18, 1 // x in ufuncs)
         self.left = np.array(left, dtype=float)
         self.right = np.array(right, dtype=float)
-        self.steps = steps
+        # `steps` is what the two setters above made it: the number of entries of the normalised
+        # bounds (Params.steps).  The `steps` argument used to overwrite it with its import-time
+        # default 200, so under another Params.steps the attribute disagreed with the arrays and
+        # frechet_op / min / max (which loop over `x.steps`) ran past the end or stopped early.
         self.mean = mean
         self.var = var
         # we force the steps but allow the p_values to be flexible
